@@ -320,6 +320,24 @@ def _value_families():
         lambda: geom.Geometry(__import__("shapely.geometry").geometry.Point(1.0, 2.0, 30.0), "EPSG:4326"),
         lambda: geom.Geometry({"type": "Point", "coordinates": [0.1 + 0.2, 1e-320]}, "EPSG:4326"),
     ]
+    def _crs_used(spec, route):
+        """a CRS built from another spelling of an EPSG code, AFTER the library itself has looked at it (.epsg is read by
+        xr_coords / GeoTIFF export and caches its answer on the object)"""
+        from odc.geo.crs import CRS
+
+        base = CRS(spec)
+        c = {"wkt": lambda: CRS(base.to_wkt()), "pyproj": lambda: CRS(base.proj), "epsg": lambda: CRS(spec), "json": lambda: CRS(base.proj.to_json())}[route]()
+        _ = c.epsg
+        _ = c.units
+        return c
+
+    fam["CRS"] = [
+        lambda: _crs_used("EPSG:32633", "wkt"),
+        lambda: _crs_used("EPSG:3857", "json"),
+        lambda: _crs_used("EPSG:4326", "epsg"),
+        lambda: _crs_used("EPSG:3577", "wkt"),
+        lambda: _crs_used("EPSG:6933", "pyproj"),
+    ]
     fam["BoundingBox"] = [lambda: geom.BoundingBox(0, 1, 2, 3, "EPSG:4326"), lambda: geom.BoundingBox(0, 1, 2, 3, None), lambda: geom.BoundingBox(0, 1, 2, 3.5, "EPSG:4326"), lambda: geom.BoundingBox(0, 1, 2, 3, "EPSG:3857")]
     fam["GeoBox"] = [lambda: GeoBox((7, 9), A, "EPSG:32633"), lambda: GeoBox((7, 8), A, "EPSG:32633"), lambda: GeoBox((7, 9), A * Affine.translation(1, 0), "EPSG:32633"), lambda: GeoBox((7, 9), A, "EPSG:32634"), lambda: GeoBox((7, 9), A * Affine.translation(1e-7, 0), "EPSG:32633")]
     pix = np.asarray([(x, y) for y in (0.0, 10.0, 20.0) for x in (0.0, 15.0, 30.0)])
@@ -350,7 +368,7 @@ def _value_samples():
         for name in _value_families():
             yield dict(type_name=name)
 
-    return "10 value types x families of 3-21 near-identical objects (Geometry: every shapely kind incl. rings, holes, multi-part, collection, empty, 3-D, awkward floats) (differing in one field), each built twice, copied and pickled: all pairs and triples", gen()
+    return "11 value types (incl. CRS objects from other spellings after their EPSG code was looked up) x families of 3-21 near-identical objects (Geometry: every shapely kind incl. rings, holes, multi-part, collection, empty, 3-D, awkward floats) (differing in one field), each built twice, copied and pickled: all pairs and triples", gen()
 
 
 def _value_oracle(args, run=None):
@@ -378,6 +396,10 @@ def _value_oracle(args, run=None):
 
     # same construction twice / copy / pickle
     for i, (o, t) in enumerate(zip(objs, twins)):
+        if name == "CRS":
+            for how, c in {"pickled clone": pickle.loads(pickle.dumps(o)), "deep copy": copy.deepcopy(o)}.items():
+                if str(c) != str(o):
+                    fails.append(f"post:CRS: a {how} has the same string form as the original, also after the original was used (member {i})")
         if not eq(o, o):
             fails.append(f"post:{name}: == is reflexive (member {i})")
         clones = {"pickled clone": pickle.loads(pickle.dumps(o)), "deep copy": copy.deepcopy(o)}
